@@ -29,9 +29,17 @@ import "time"
 // VerifC61_history (B): real histories from the real initial state satisfy c61inv (so the (I) pre-states are
 // not vacuous) and the first operations from the zero state establish it.
 //
+// FINDING on the unchanged tree (known_findings.txt key C61-add-behind-clock-misplaced, repro/C61): the step
+// "add the witness" breaks the invariant exactly when pendingTime < t <= levels[0].end - resolution, a state
+// reachable after Latest/LatestBuckets advanced the levels to the clock: AddWithTime then parks the observation
+// with pendingTime = levels[0].end, so it is merged into a LATER bucket on every level; bucket-aligned Range and
+// Latest misreport it (Total stays exact). VerifC61_addWitness and VerifC61_history assert through vfAssertKF
+// with that predicate, so any other violation is still reported.
+//
 // Sensitivity (mut.sh, each caught by this check):
-//   timeseries.go mergeValue  `(ts.numBuckets - 1) - int(`  ->  `ts.numBuckets - int(`        (index arithmetic)
-//   timeseries.go AddWithTime `ts.pending.Add(observation)` ->  `ts.pending.CopyFrom(observation)` (total loses)
+//   timeseries.go mergeValue  `(ts.numBuckets - 1) - int(`  ->  `ts.numBuckets - int(`   (VerifC61_total: invariant)
+//   timeseries.go AddWithTime `ts.pending.Add(observation)` ->  `ts.pending.CopyFrom(observation)`
+//                                                     (VerifC61_addOther: invariant; VerifC61_totals: Total != sum)
 
 func init() {
 	vfRegister("VerifC61_addWitness", VerifC61_addWitness)
